@@ -105,6 +105,31 @@ def gen_case(seed, idx, tier="quick"):
         "fresh": rng.random() < cfg["fresh_p"],
         "sens": gen_sensitivity(rng, spec),
     }
+    # rarely populated collection fields: the query flag set explicitly, explicit bounds that enclose the children
+    kids_lo = [t["exon_starts"][0] for g in spec["genes"] for t in g["transcripts"]] + [f["interval_starts"][0] for c in spec["feature_collections"] for f in c["feature_intervals"]] + \
+              [v["start"] for c in spec.get("variant_collections") or [] for v in c["variant_intervals"]]
+    kids_hi = [t["exon_ends"][-1] for g in spec["genes"] for t in g["transcripts"]] + [f["interval_ends"][-1] for c in spec["feature_collections"] for f in c["feature_intervals"]] + \
+              [v["end"] for c in spec.get("variant_collections") or [] for v in c["variant_intervals"]]
+    lo, hi = (par["chunk"] if par["mode"] == "chunk" else (0, L))
+    r = rng.random()
+    extra = {}
+    if r < 0.15:
+        extra["completely_within"] = rng.choice([True, False])
+    if 0.1 < r < 0.25 and kids_lo and par["mode"] != "chunk":
+        extra["start"] = rng.randint(lo, max(lo, min(kids_lo)))
+        extra["end"] = rng.randint(min(hi, max(kids_hi)), hi)
+    if extra:
+        for k in ("spec_a", "spec_b"):
+            case[k].update(extra)
+        if case["sens"]:
+            case["sens"]["spec"].update(extra)
+    # the subject may be the *result of a query* on the built collection (such results always carry the query flag and
+    # their own bounds); producer and consumer derive it the same way
+    if rng.random() < 0.25 and kids_lo:
+        qs = rng.randint(lo, max(lo, min(kids_hi)))
+        qe = rng.randint(max(qs + 1, min(hi, max(kids_lo))), hi) if hi > qs else hi
+        case["derive"] = {"start": qs, "end": qe, "completely_within": rng.choice([True, False])}
+        case["sens"] = None
     return case
 
 
@@ -351,6 +376,10 @@ def serialize_one(obj, is_coll):
     return forms
 
 
+def _derive(coll, d):
+    return coll.query_by_position(d["start"], d["end"], completely_within=d["completely_within"])
+
+
 def h_produce(req):
     from bcsim import build
 
@@ -360,6 +389,11 @@ def h_produce(req):
         return {"build_error": type(e).__name__, "hashseed": os.environ.get("PYTHONHASHSEED")}
     if req.get("warm"):
         warm_up(coll)
+    if req.get("derive"):
+        try:
+            coll = _derive(coll, req["derive"])
+        except Exception as e:
+            return {"build_error": "derive:" + type(e).__name__, "hashseed": os.environ.get("PYTHONHASHSEED")}
     out = {"report": report(coll), "forms": {"coll": serialize_one(coll, True)}, "children": [], "hashseed": os.environ.get("PYTHONHASHSEED"),
            "set_order_probe": _set_order_probe(req["spec"])}
     for path, child in children_with_paths(coll):
@@ -451,7 +485,16 @@ def h_consume(req):
         built, _ = build.build_collection(spec_b)
     except Exception as e:
         return {"build_error": type(e).__name__, "hashseed": os.environ.get("PYTHONHASHSEED")}
+    if req.get("derive"):
+        try:
+            built = _derive(built, req["derive"])
+        except Exception as e:
+            return {"build_error": "derive:" + type(e).__name__, "hashseed": os.environ.get("PYTHONHASHSEED")}
     parent = build.build_parent(spec_b["parent"])
+    if req.get("derive"):
+        # the children of a query result live on the chunk the query cut out, not on the original parent: a caller
+        # that re-imports one of them passes the parent of the collection it belongs to
+        parent = built._parent_or_seq_chunk_parent
     out = {"built": report(built), "loaded": [], "hashseed": os.environ.get("PYTHONHASHSEED"), "set_order_probe": _set_order_probe(spec_b),
            "decoy_loaded": decoy_loaded}
     items = [([], "AnnotationCollection", req["forms"]["coll"])] + [(c["path"], c["cls"], c["forms"]) for c in req["children"]]
@@ -582,11 +625,11 @@ def sig_key(f):
 def run_case(case):
     nd = node.nodes()
     call_a = nd.call_fresh if case.get("fresh") else nd.call
-    prod = nd.call(case["hs_a"], {"op": "c08.produce", "spec": case["spec_a"], "warm": case["warm"]})
+    prod = nd.call(case["hs_a"], {"op": "c08.produce", "spec": case["spec_a"], "warm": case["warm"], "derive": case.get("derive")})
     if "build_error" in prod:
         # the library refuses this generated collection in its constructor: not a C08 matter, unless the consumer
         # (same content, other hash seed / insertion order) disagrees about it
-        cons = nd.call(case["hs_b"], {"op": "c08.consume", "spec": case["spec_b"], "forms": {"coll": {}}, "children": []})
+        cons = nd.call(case["hs_b"], {"op": "c08.consume", "spec": case["spec_b"], "forms": {"coll": {}}, "children": [], "derive": case.get("derive")})
         fs = [] if cons.get("build_error") == prod["build_error"] else [
             {"inv": "build_determinism", "form": "build", "cls": "AnnotationCollection", "what": f"constructor:{prod['build_error']}!={cons.get('build_error')}"}]
         return fs, {"invalid_spec": 1, "parent_mode_" + case["spec_a"]["parent"]["mode"]: 1}, engine.plan_digest(prod)
@@ -597,11 +640,11 @@ def run_case(case):
         dspec = copy.deepcopy(case["spec_a"])
         g = dspec["parent"]["genome"]
         g["seq"] = g["seq"].translate(str.maketrans("ACGT", "CATG"))
-        dprod = nd.call(case["hs_a"], {"op": "c08.produce", "spec": dspec, "warm": False})
+        dprod = nd.call(case["hs_a"], {"op": "c08.produce", "spec": dspec, "warm": False, "derive": case.get("derive")})
         if "forms" in dprod:
             decoy_forms = json.loads(json.dumps(dprod["forms"]["coll"]))
     cons = call_a(case["hs_b"], {"op": "c08.consume", "spec": case["spec_b"], "forms": disk["forms"], "children": disk["children"],
-                                 "decoy_forms": decoy_forms, "decoy_spec": case.get("decoy_spec") if case.get("decoy") == "unrelated" else None})
+                                 "derive": case.get("derive"), "decoy_forms": decoy_forms, "decoy_spec": case.get("decoy_spec") if case.get("decoy") == "unrelated" else None})
     if "build_error" in cons:
         fs = [{"inv": "build_determinism", "form": "build", "cls": "AnnotationCollection", "what": f"constructor:None!={cons['build_error']}"}]
         return fs, {"invalid_spec": 0}, engine.plan_digest(prod["report"])
@@ -619,6 +662,9 @@ def run_case(case):
         "permute_sets": int(case["spec_a"] != case["spec_b"]),
         "warm_before_serialize": int(bool(case["warm"])),
         "stale_consumer": int(bool(cons.get("decoy_loaded"))),
+        "subject_is_query_result": int(bool(case.get("derive"))),
+        "explicit_completely_within": int(case["spec_a"].get("completely_within") is not None),
+        "explicit_bounds": int(case["spec_a"].get("start") is not None),
         "fresh_interpreter": int(bool(case.get("fresh"))),
         "sensitivity_probes": int(sens is not None and "error" not in (sens or {})),
         "sensitivity_invalid": int(sens is not None and "error" in (sens or {})),
